@@ -12,7 +12,7 @@ import (
 // the total number of octets the sink has received (over all connections)
 // would pass AtByte, so faults land inside the message stream.
 type SinkFault struct {
-	Kind       string        `json:"kind"` // "reset" | "close" | "torn"
+	Kind       string        `json:"kind"` // "reset" | "close" | "torn" | "stall" (tcp: the sink stops reading for DownFor, writes block; no failure)
 	AtByte     int           `json:"at_byte"`
 	DeadAccept int           `json:"dead_accept"` // later writes that "succeed" locally and are lost
 	DownFor    time.Duration `json:"down_for"`    // sink refuses connections for this long
@@ -68,6 +68,34 @@ type simConn struct {
 	resetFirst bool
 	closed     bool
 	udp        bool
+	wdeadline  time.Time     // write deadline set by the program
+	stallUntil time.Duration // the sink reads nothing until then: writes block
+}
+
+// waitStall blocks the writer until the sink reads again or the write
+// deadline expires (reported).
+func (c *simConn) waitStall() (expired bool) {
+	s := c.k.s
+	wait := c.stallUntil - s.Now()
+	if !c.wdeadline.IsZero() {
+		if dl := time.Until(c.wdeadline); dl < wait {
+			wait, expired = dl, true
+		}
+	}
+	if wait > 0 {
+		s.mu.Lock()
+		s.stalling++
+		s.mu.Unlock()
+		time.Sleep(wait)
+		s.mu.Lock()
+		s.stalling--
+		s.mu.Unlock()
+	}
+	return expired
+}
+
+func timeoutErr(proto string) error {
+	return &net.OpError{Op: "write", Net: proto, Err: os.ErrDeadlineExceeded}
 }
 
 func opErr(op, proto string, e error) error {
@@ -161,6 +189,14 @@ func (c *simConn) write(b []byte) (int, error) {
 		}
 		return 0, opErr("write", c.rec.Proto, syscall.EPIPE)
 	}
+	if now < c.stallUntil {
+		// the sink's buffers are full: nothing more is taken until it reads again
+		if c.waitStall() {
+			c.rec.WriteErrs++
+			return 0, timeoutErr(c.rec.Proto)
+		}
+		now = k.s.Now()
+	}
 	// next unfired fault
 	var f *SinkFault
 	for i := range k.Script {
@@ -168,6 +204,26 @@ func (c *simConn) write(b []byte) (int, error) {
 			f = &k.Script[i]
 			break
 		}
+	}
+	if f != nil && f.Kind == "stall" && k.Total+len(b) > f.AtByte {
+		// the sink stops reading inside this write: the first part is taken,
+		// the writer blocks; when the sink reads again the rest follows
+		keep := f.AtByte - k.Total
+		if keep < 0 {
+			keep = 0
+		}
+		c.rec.Bytes = append(c.rec.Bytes, b[:keep]...)
+		k.Total += keep
+		f.Fired = true
+		f.FiredAt = now
+		c.stallUntil = now + f.DownFor
+		if c.waitStall() {
+			c.rec.WriteErrs++
+			return keep, timeoutErr(c.rec.Proto)
+		}
+		c.rec.Bytes = append(c.rec.Bytes, b[keep:]...)
+		k.Total += len(b) - keep
+		return len(b), nil
 	}
 	if f != nil && k.Total+len(b) > f.AtByte {
 		keep := f.AtByte - k.Total
@@ -205,9 +261,9 @@ func (c *simConn) Read(b []byte) (int, error) {
 func (c *simConn) Close() error                       { c.closed = true; return nil }
 func (c *simConn) LocalAddr() net.Addr                { return &net.TCPAddr{IP: net.IPv4(127, 0, 0, 1), Port: 40000} }
 func (c *simConn) RemoteAddr() net.Addr               { return &net.TCPAddr{IP: net.IPv4(127, 0, 0, 1), Port: 9555} }
-func (c *simConn) SetDeadline(t time.Time) error      { return nil }
+func (c *simConn) SetDeadline(t time.Time) error      { c.wdeadline = t; return nil }
 func (c *simConn) SetReadDeadline(t time.Time) error  { return nil }
-func (c *simConn) SetWriteDeadline(t time.Time) error { return nil }
+func (c *simConn) SetWriteDeadline(t time.Time) error { c.wdeadline = t; return nil }
 
 // Listen replaces net.Listen: listening TCP sockets are not simulated.
 func Listen(network, addr string) (net.Listener, error) {
